@@ -1,1 +1,180 @@
-fn main(){}
+//! C20 child process: plays a long capture-free game through offered actions on a thread with the
+//! default stack size, then clones / queries / drops, acknowledging every stage with a line.
+//! A stack overflow kills the process with a signal, which is what the parent looks for.
+//!
+//! usage: c20_child <seed> <turns> <policy 0|1> <order 0..>
+use arimaa_engine_step::{Action, GameState, Piece};
+use std::io::Write;
+
+fn splitmix(s: &mut u64) -> u64 {
+    *s = s.wrapping_add(0x9e3779b97f4a7c15);
+    let mut z = *s;
+    z = (z ^ (z >> 30)).wrapping_mul(0xbf58476d1ce4e5b9);
+    z = (z ^ (z >> 27)).wrapping_mul(0x94d049bb133111eb);
+    z ^ (z >> 31)
+}
+
+fn say(s: &str) {
+    let out = std::io::stdout();
+    let mut l = out.lock();
+    let _ = writeln!(l, "{}", s);
+    let _ = l.flush();
+}
+
+const START: &str = "2g
+ +-----------------+
+8| r r r r r r r r |
+7| h d c e m c d h |
+6|     x     x     |
+5|                 |
+4|                 |
+3|     x     x     |
+2| H D C M E C D H |
+1| R R R R R R R R |
+ +-----------------+
+   a b c d e f g h";
+
+fn quiet_steps(g: &GameState, offered: &[Action]) -> Vec<Action> {
+    let pb = g.piece_board();
+    let mine = pb.player_piece_mask(g.is_p1_turn_to_move());
+    offered
+        .iter()
+        .filter(|a| match a {
+            Action::Move(sq, _) => {
+                let bit = sq.as_bit_board();
+                bit & mine != 0 && pb.piece_type_at_square(sq) != Some(Piece::Rabbit) && g.trapped_animal_for_action(a).is_none()
+            }
+            _ => false,
+        })
+        .copied()
+        .collect()
+}
+
+fn play(seed: u64, turns: usize, policy: u64) -> (GameState, usize) {
+    let mut rng = seed;
+    let mut g: GameState = START.parse().expect("start position");
+    let mut turns_done = 0usize;
+    let mut steps_this_turn = 0usize;
+    let mut want_steps = 1usize;
+    while turns_done < turns {
+        if g.is_terminal().is_some() {
+            break;
+        }
+        let offered = g.valid_actions();
+        if offered.is_empty() {
+            break;
+        }
+        let side = g.is_p1_turn_to_move();
+        let a = if steps_this_turn >= want_steps && offered.contains(&Action::Pass) {
+            Action::Pass
+        } else {
+            let q = quiet_steps(&g, &offered);
+            let pool: Vec<Action> = if !q.is_empty() {
+                q
+            } else {
+                let nc: Vec<Action> = offered.iter().filter(|a| **a != Action::Pass && g.trapped_animal_for_action(a).is_none()).copied().collect();
+                if !nc.is_empty() {
+                    nc
+                } else {
+                    offered.clone()
+                }
+            };
+            pool[(splitmix(&mut rng) % pool.len() as u64) as usize]
+        };
+        g = g.take_action(&a);
+        steps_this_turn += 1;
+        if g.is_p1_turn_to_move() != side {
+            turns_done += 1;
+            steps_this_turn = 0;
+            want_steps = if policy == 0 { 1 } else { 1 + (splitmix(&mut rng) % 3) as usize };
+            if turns_done % 5000 == 0 {
+                say(&format!("PROGRESS turns={} history={}", turns_done, g.unwrap_play_phase().hash_history().len()));
+            }
+        }
+    }
+    (g, turns_done)
+}
+
+fn body(seed: u64, turns: usize, policy: u64, order: u64) {
+    let (g, done) = play(seed, turns, policy);
+    let hist = g.as_play_phase().map(|p| p.hash_history().len()).unwrap_or(0);
+    say(&format!("PLAYED turns={} history={}", done, hist));
+    let clone = g.clone();
+    say("STAGE clone");
+    let n = g.valid_actions().len() + g.valid_actions_no_rep().len();
+    say(&format!("STAGE valid_actions {}", n));
+    let t = g.is_terminal();
+    say(&format!("STAGE is_terminal {:?}", t));
+    let c = g.can_pass(true) as u8 + g.can_pass(false) as u8;
+    say(&format!("STAGE can_pass {}", c));
+    let s = g.to_string();
+    say(&format!("STAGE to_string {}", s.len()));
+    let h = g.transposition_hash();
+    say(&format!("STAGE transposition_hash {:x}", h));
+    let next = g.valid_actions().first().map(|a| g.take_action(a));
+    say("STAGE take_action");
+    let eq = clone == g;
+    say(&format!("STAGE eq {}", eq));
+    if order % 2 == 0 {
+        drop(clone);
+        say("STAGE drop_clone");
+        drop(next);
+        say("STAGE drop_next");
+        // the original is now the only owner of the long history: discard it by a capture if one
+        // can be reached, otherwise by drop
+        if order % 4 == 0 {
+            let g2 = play_until_capture(g, seed ^ 0x55);
+            say("STAGE capture_path");
+            drop(g2);
+        } else {
+            drop(g);
+        }
+        say("STAGE drop_original");
+    } else {
+        drop(g);
+        say("STAGE drop_original");
+        drop(next);
+        say("STAGE drop_next");
+        drop(clone);
+        say("STAGE drop_clone");
+    }
+    say(&format!("DONE history={}", hist));
+}
+
+/// Plays on (captures welcome) so that a capture discards the history while this state is its only owner.
+fn play_until_capture(mut g: GameState, seed: u64) -> GameState {
+    let mut rng = seed;
+    for _ in 0..3000 {
+        if g.is_terminal().is_some() {
+            break;
+        }
+        let offered = g.valid_actions();
+        if offered.is_empty() {
+            break;
+        }
+        let caps: Vec<Action> = offered.iter().filter(|a| g.trapped_animal_for_action(a).is_some()).copied().collect();
+        let before = g.unwrap_play_phase().hash_history().len();
+        let a = if !caps.is_empty() { caps[0] } else { offered[(splitmix(&mut rng) % offered.len() as u64) as usize] };
+        g = g.take_action(&a);
+        let after = g.unwrap_play_phase().hash_history().len();
+        if after + 1 < before {
+            say(&format!("STAGE history_discarded_by_capture {} -> {}", before, after));
+            break;
+        }
+    }
+    g
+}
+
+fn main() {
+    let a: Vec<String> = std::env::args().collect();
+    let seed: u64 = a[1].parse().unwrap();
+    let turns: usize = a[2].parse().unwrap();
+    let policy: u64 = a[3].parse().unwrap();
+    let order: u64 = a[4].parse().unwrap();
+    // default-size thread stack: the builder is not given a size and RUST_MIN_STACK is removed by the parent
+    let h = std::thread::spawn(move || body(seed, turns, policy, order));
+    match h.join() {
+        Ok(()) => std::process::exit(0),
+        Err(_) => std::process::exit(3),
+    }
+}
